@@ -4,6 +4,7 @@ import (
 	"go/constant"
 	"go/token"
 	"go/types"
+	"strings"
 
 	"golang.org/x/tools/go/ssa"
 )
@@ -284,6 +285,11 @@ type fnMatch func(*types.Func) bool
 func shortName(f *types.Func) string {
 	if f == nil {
 		return ""
+	}
+	if len(fnAlias) > 0 {
+		if rk, ok := fnAlias[funcKey(f)]; ok {
+			return strings.TrimPrefix(rk, modPath+"/")
+		}
 	}
 	pkg := ""
 	if f.Pkg() != nil {
@@ -592,7 +598,34 @@ func dominates(a, b ssa.Instruction) bool {
 		}
 		return false
 	}
-	return ba.Dominates(bb)
+	if ba.Dominates(bb) {
+		return true
+	}
+	// every FEASIBLE path (jump threading over constant phi operands) to b passes through a's block
+	return ba.Parent() == bb.Parent() && len(ba.Parent().Blocks) > 0 && !reachesAvoiding(ba.Parent().Blocks[0], bb, ba)
+}
+
+// reachesAvoiding: target is reachable from block from (inclusive) without entering block avoid,
+// along feasible edges (jump threading).
+func reachesAvoiding(from, target, avoid *ssa.BasicBlock) bool {
+	if from == avoid {
+		return false
+	}
+	if from == target {
+		return true
+	}
+	found := false
+	forwardFrom(from, func(x *ssa.BasicBlock) bool {
+		if found || x == avoid {
+			return false
+		}
+		if x == target {
+			found = true
+			return false
+		}
+		return true
+	})
+	return found
 }
 
 // reachableFrom reports whether block 'to' is reachable from block 'from' (CFG).
